@@ -131,3 +131,16 @@ pub fn yield_now() {
 pub fn sleep(d: std::time::Duration) {
     sched::sleep_ns(d.as_nanos().min(u64::MAX as u128) as u64);
 }
+
+/// `std::thread::park` analogue is deliberately absent: `Thread::unpark` of the std handle cannot be
+/// intercepted. Code that needs it must go through `sync::Parker`.
+pub fn available_parallelism() -> io::Result<std::num::NonZeroUsize> {
+    std::thread::available_parallelism()
+}
+
+pub fn scope<'env, F, T>(f: F) -> T
+where
+    F: for<'scope> FnOnce(&'scope std::thread::Scope<'scope, 'env>) -> T,
+{
+    std::thread::scope(f)
+}
